@@ -39,6 +39,7 @@ def contexts_for(tier, seed, exh_quick=9, exh_thorough=12, rnd_quick=300, rnd_th
     out += list(gen.exh(k))
     out += gen.fam(big or (10 if tier == 'quick' else 12))
     out += wide[:-1]
+    out += gen.special(seed)
     out += gen.rnd(rnd_quick if tier == 'quick' else rnd_thorough, seed)
     return out
 
